@@ -12,12 +12,11 @@ claimed = subprocess.run([V + "/bin/mltlint", "-list"], capture_output=True, tex
 ENV = "GOFLAGS=-mod=mod GOPROXY=off GOSUMDB=off GOTOOLCHAIN=local GOWORK=off"
 
 NA = {
- "C11": "each gadget's meaning is the value of a NAND/shift/compare network for all widths and operands; deciding it needs evaluation or a solver, which is another technique family",
 }
 
 # property -> (technique, level text, level note, design ref)
 T = {
- "C01": ("abstract interpretation of riscv.init and every effects closure over go/ssa (known-bits + bit-dependence, decision-replay path exploration), template rules F0-F11, exact check of immediate/register-field decoding against the ISA formats, canonical-form comparison of every entry's effect terms with a reference semantics table (C01.sem), concrete walk with Go integer wrap-around of the PC-relative address helper on boundary immediates (C01.pcrel) and of the functions building address constants at both ends of the 32- and 64-bit address spaces (C01.wrap); dependence rule for the sign of the signed remainder (C01.remsign, 1 listed known finding); every path without x0 operands compared, paths that assume an immediate value against the definition specialised to it",
+ "C01": ("abstract interpretation of riscv.init and every effects closure over go/ssa (known-bits + bit-dependence, decision-replay path exploration), template rules F0-F11, exact check of immediate/register-field decoding against the ISA formats, canonical-form comparison of every entry's effect terms with a reference semantics table (C01.sem), concrete walk with Go integer wrap-around of the PC-relative address helper on boundary immediates (C01.pcrel) and of the functions building address constants at both ends of the 32- and 64-bit address spaces (C01.wrap); dependence rule for the sign of the signed remainder (C01.remsign, 1 listed known finding); every path without x0 operands compared, paths that assume an immediate value against the definition specialised to it; immediates spelled bit by bit (exact copies of instruction bits, sign/zero extension) on both sides",
          "structural necessary conditions of correct lifting decided for all 160 table entries on all abstract paths: closures do not panic, every decoded operand bit influences the effects, access widths match metadata, operand roles (rs1 address / rs2 value / rd target / CSR bits), x0 guarded, XLEN widths, sign extension of immediates and of W results, operand order of non-commutative operations, every RV64 W-form entry agrees with its RV32 twin up to operators whose low bits depend only on low bits (F11); immediate formats I/S/B/U/J and register fields are verified bit-exactly; the lifted effect terms of all 160 entries equal, in a canonical form, the instruction definitions of the ISA manual written in the same vocabulary (operator, operand roles, comparison polarity, targets, widths, sign extension, jalr bit 0, mulh*/AMO selection); the helper adding a signed 32-bit immediate to an address is exact for 0, +-1, +-2^11, MaxInt32 and MinInt32. The meaning of the exprtools helpers themselves (C11) and CSR numbering are NOT decided; a helper replaced by its expansion would be reported although behaviour is unchanged",
          "trusts go/ssa, the abstract interpreter's transfer functions and that pkg/expr constructors mean what they document", "§4 C01"),
  "C02": ("SSA constant evaluation of the opcode tables and of instructionSet for the 8 configurations + exact cube algebra (sharp) against a reference encoding table; dominance rules for length check / 4-byte read; provenance of the returned parser's matcher (a cache is accepted only with a key walked to be injective over all configurations)",
@@ -29,24 +28,27 @@ T = {
  "C04": ("who-may-call + miss-edge dominance + must-pass-through (memoising store) rules; set-algebra truth tables",
          "for every call site of the state provider: dominated by the miss of the same request, memory ranges taken from Missing() of the same request, answer stored before going on; Overlay.Missing = base ∩ overlay; history semantics of the containers is C14-C16",
          "trusts go/ssa", "§4 C04"),
- "C05": ("loop pairing (every iteration records the writer), scan-direction vs addDep argument order, finder coverage (direct calls or a static table of passes ranged over as a whole), bound finder identified by role, bound decision by concrete CFG walk",
+ "C05": ("loop pairing (every iteration records the writer), scan-direction vs addDep argument order, finder coverage (direct calls or a static table of passes ranged over as a whole), bound finder identified by role, bound decision by concrete CFG walk; the control edge is added in every iteration (no condition of its own, no early exit)",
          "shape of the dependency scanners: last-writer tables updated on every path, edges ordered earlier->later, all five finders run over the whole block, control edges to a jumping last instruction, LowerBound/UpperBound arithmetic; semantic preservation for all blocks is NOT decided",
          "trusts go/ssa and that read/write sets of instructions are complete (C28 rules for FindAll/Exprs)", "§4 C05"),
- "C06": ("guard (control-dependence) rule on all 11 addDep call sites; who-may-call",
+ "C06": ("guard (control-dependence) rule on all 11 addDep call sites, incl. the remembered special / memory-order instruction being recorded under its predicate, tested non-nil and remembered in an earlier iteration (no edge from an instruction to itself); who-may-call",
          "necessary condition for 'no spurious edge': every edge insertion is dominated by a witness of conflict (table hit under a key of the instruction, special/memory-order flags, jump targets); minimality of the relation is not decided",
          "trusts go/ssa", "§4 C06"),
  "C07": ("decision tables by (interprocedural) concrete CFG walk over all weak orderings (validateArrayIndex 13, checkFromToIndex 16, checkMove 150, move 3), only-writers / who-may-call, symbolic loop-range coverage and slot pairing in moveFwd/moveBack",
          "admission logic exact over orderings; rotation gated by the nil check; bookkeeping fields written only by owners; every slot of [lo,hi] rewritten once with index and chained address; lookups use the address-ordered copy. Invariants over arbitrary histories follow only as far as these local conditions imply them",
          "trusts go/ssa; LowerBound/UpperBound treated as opaque symbols in checkMove", "§4 C07"),
- "C08": ("error propagation, concrete interprocedural CFG walk of deps.jumps over 19 combinations (store kind, folds to a constant, equals End()), guard/dependence rules with predicate-helper summaries, memmove-direction rule, pipeline dataflow chain, no-insertion-while-ranging rule for fixed-trip loops",
+ "C08": ("error propagation, concrete interprocedural CFG walk of deps.jumps over 19 combinations (store kind, folds to a constant, equals End()), guard/dependence rules with predicate-helper summaries, memmove-direction rule, pipeline dataflow chain, no-insertion-while-ranging rule for fixed-trip loops; the split at a constant jump target is under no further condition",
          "jump targets = folded Possibilities of IP writes, dropped only when constant == ins.End(); splitting stages chained and cutting under the right comparisons; errors propagate; no loop with a trip count fixed on entry walks a block list its body inserts into. Where exactly splits fall for all inputs is not decided",
          "trusts go/ssa", "§4 C08"),
  "C09": ("traversal rules over the sealed IR (origin dataflow, rebuild homomorphism, case bodies followed into extracted helpers), concrete interprocedural CFG walk of the Binary/Less cases over all combinations of constant operands, changed flags and comparison outcome, operator-to-evaluator agreement by concrete walk of binaryEvalFunc per operator (switch, if chain or static table), byte-slice ownership in exprtransform/expreval",
          "constFold folds every child, rebuilds nodes with their own operator/key/width, evaluates exactly when both operands are constants (no further condition), selects the right branch of a constant comparison and re-widths it, passes operands in order, ends with PurgeWidthGadgets, and never writes through the bytes of the constants it folds; value preservation itself needs C10/C11 and is not decided",
          "trusts go/ssa", "§4 C09"),
- "C10": ("concrete walks (E7+ with a byte-buffer model) of the expreval operators for which a finite argument exists: setWidth (copies only: distinguishable bytes), Ltu (comparisons only: every ordering), Nand (bitwise only: per-bit universe), Add (digit step of a radix-256 ripple-carry adder over its finite domain: boundary digits quick, all 2^17 cases thorough)",
-         "zero extension / truncation to the operation width, unsigned comparison, NAND and addition modulo 2^(8w) are decided (addition by verifying the digit step exhaustively and relying on the loop treating every digit alike). Lsh, Rsh, Mul, Div, division by zero and the big.Int conversions are numerical and NOT decided; that lessEval selects the branch Ltu names is C09.allconst",
+ "C10": ("concrete walks (E7+ with a byte-buffer model) of the expreval operators for which a finite argument exists: setWidth (copies only: distinguishable bytes), Ltu (comparisons only: every ordering), Nand (bitwise only: per-bit universe), Add (digit step of a radix-256 ripple-carry adder over its finite domain: boundary digits quick, all 2^17 cases thorough; walked as the middle digit of a three-byte sum so that the outgoing carry is visible), Lsh/Rsh (byte moves plus an in-place bit shift: shift amount as an atom, one- to three-byte operands incl. operands wider/narrower than the width, all 2^16 two-byte values x bit shifts 1..7 thorough), bigInt (bytes handed to big.Int.SetBytes); ownership rule: a Value operand is only handed, with the operation width, to a width-adjusting method or another such function (C10.operands)",
+         "zero extension / truncation to the operation width (for every operation: no operand byte is read before the adjustment), unsigned comparison, NAND, addition modulo 2^(8w) (digit step verified exhaustively, relying on the loop treating every digit alike) and the shifts given the amount big.Int reports are decided. The products and quotients computed by math/big (Mul, Div), division by zero and the conversion of big.Int results are numerical and NOT decided; that lessEval selects the branch Ltu names is C09.allconst",
          "trusts go/ssa and the walker's byte-buffer model", "§4 C10"),
+ "C11": ("term extraction from SSA (the expression a gadget builds, helpers inlined) and three symbolic arguments over that term: per-bit truth tables for Nand-only terms, polynomial normal form over Z/2^(8w) for Add/Mul/complement terms (quotient as an atom), case analysis (operand zero / non-zero; a<b, a=b, a>b) for selections comparing with 0, 1 or the operands",
+         "14 of the gadgets are decided for every width and every operand value: BitNot, BitAnd, BitOr, BitXor, Ones (bitwise), Negate, Sub, NewWidthGadget, Mod incl. divisor zero (ring), Bool, Not, BoolCond, Eq, Leu (cases). NOT decided: Abs, SignedMul, SignedDiv, SignedMod, SignExtend, RshA, Lts, Les, MaskBits, IntNegative (their meaning depends on sign bits and masks that vary with the width) and the meaning of the IR operators themselves (C10)",
+         "trusts go/ssa; relies on C10 for Add/Mul/Div/Nand at width w being the ring operations, the bitwise complement-and, and all ones on division by zero", "§4 C11"),
  "C12": ("decision table of dropUselessWidthGadget by CFG walk over the 13 weak orderings of (context, gadget, argument) widths against gadget >= min(arg, w); setWidth walked per node type; purgeWidthGadgetsKeepWidth walked over gadget chains; WidthGadgetArg walked over the 16 shape combinations; context-width agreement of every prune call site",
          "the width-gadget decision function is decided exhaustively; pruning contexts are the consuming widths; addresses are never pruned in a narrowing context; setWidth re-makes only Const and narrowed RegLoad",
          "trusts go/ssa and the documented width semantics of pkg/expr", "§4 C12"),
@@ -68,13 +70,13 @@ T = {
  "C18": ("SSA pattern + dominance rules on RegMap.Store/Load; concrete walk of State.Apply per effect kind and address-is-constant outcome (a walk returning false passes no store)",
          "stored/loaded register values pass through SetWidth with the method's own width, miss returns absent, a refused memory effect is refused before any state change, effect fields are forwarded from the same node",
          "trusts go/ssa and that exprtransform.SetWidth implements zero-extension/truncation (C12)", "§4 C18"),
- "C19": ("interprocedural data/control dependence of every ambiguity decision on bytes and mask of both patterns, and no decision between groups by a lookup of one pattern among the others; bit-parallel argument for the pair predicate (bytes touched bitwise only + walk over all 1-/2-byte patterns on a 2-/1-bit universe); ordering-complete walks of byteLT/byteEQ; decision table of Validate; guard and search-predicate rules of matchInstruction; comparator/cut/adjacency rules of group and newMaskGroup",
+ "C19": ("interprocedural data/control dependence of every ambiguity decision on bytes and mask of both patterns, and no decision between groups by a lookup of one pattern among the others; bit-parallel argument for the pair predicate over Opcode values or the pattern records (bytes touched bitwise only + walk over all 1-/2-byte patterns on a 2-/1-bit universe); the records' cached masked bytes are bytes & mask of their own Opcode (store rule + walk of the masking helper); ordering-complete walks of byteLT/byteEQ; decision table of Validate; guard and search-predicate rules of matchInstruction; comparator/cut/adjacency rules of group and newMaskGroup",
          "structural necessary conditions of unambiguous, exact matching: a conflict between two patterns is decided from both byte strings and both masks by the exact predicate (agree on every bit both masks select, over the shorter length), every pattern of every pair of groups is compared, equal masks are grouped and equal masked bytes in a group rejected, a match is reported only under equality of the masked prefix and searched with a lower-bound predicate in a verified total order, every group is tried, malformed patterns are rejected. That these pieces compose to the property for every pattern set (sorting, binary search by the library) is NOT decided",
          "trusts go/ssa, sort.Slice/sort.Search", "§4 C19"),
  "C20": ("decision tables by CFG walk over the ELF type enum (5 values); MachineCode walked over a one-section file for the 16 section-attribute combinations and Memory over a one-segment file for 7 (loadable, file size, memory size) combinations; deep-site provenance / guard rules for the blocks built by Memory() and MachineCode(); concrete interprocedural walks of newMemory (10 block lists), Block.Address (7 addresses) and Memory.Address (28 addresses over three blocks, sort.Search followed) on a concrete block list; error propagation",
          "accepts exactly EXEC and DYN, keeps exactly non-empty address-bearing executable PROGBITS, segments become (Vaddr, file bytes + zero fill to Memsz), sections (Addr, Data), overlap (and only overlap) rejected, lookups return the bytes from the address to the end of the containing block or nothing; debug/elf itself is trusted",
          "trusts go/ssa and debug/elf", "§4 C20"),
- "C21": ("deep-site loop-variable and dataflow rules from parser.Parse to the platform decoder and newInstruction (through whatever helpers), freshness of every appended instruction (no data flow from an element of an instruction list), no comparator by subtraction where the package sorts, error propagation",
+ "C21": ("error propagation (an error carried round a loop does not count as returned); deep-site loop-variable and dataflow rules from parser.Parse to the platform decoder and newInstruction (through whatever helpers), freshness of every appended instruction (no data flow from an element of an instruction list), no comparator by subtraction where the package sorts, error propagation",
          "the walk starts at Begin(), advances by Len() of the parsed instruction until End(), same addr/bytes parsed and stored, Bytes = bytes[:ByteLen], Effects = ConstFold of the lifted effects only, decode/validate errors abort, no instruction of the result is derived from another one",
          "trusts go/ssa", "§4 C21"),
  "C22": ("command-table discipline (argument count/type agreement with the parsers), nil-function-field rule, user-input taint for constant indexing, line-index taint with raw-index parameter summaries, validator summaries and lower-bound (non-negative) reasoning, possibly-nil pointer fields, error-continues-loop rule; concrete walk of UI.parseCommand over (number of words, number of argument parsers, optional parser) with the word list's length tracked through reslices",
@@ -89,8 +91,8 @@ T = {
  "C25": ("abstract interpretation of instruction.String() per table entry: dependence set of the text (exact-copy bit tracking and structural text signatures decide when path conditions matter) vs dependence set of the effects template",
          "every operand bit that influences the lifted behaviour influences the text, and the text starts with the mnemonic, for all 160 entries; 15 listed known findings (shift amounts, CSR zimm not rendered)",
          "trusts go/ssa and the abstract interpreter; fmt.Sprintf/strings.Join modelled as dependence-preserving", "§4 C25"),
- "C26": ("error-propagation analysis over cmd/mltwist, elf, parser, deps, basicblock; exit-code/stderr rule in main; header-sized allocation rule; inter-procedural length-precondition rule (callee relies on len(p) >= k => every caller establishes it)",
-         "every error is returned or checked with a failing branch that cannot return nil; main prints to stderr and exits non-zero; 1 listed known finding (unbounded Memsz allocation); byte-slice lengths relied upon by the decoder are established by its callers and interface entry points rely on nothing unchecked. Absence of panics in general is NOT decided",
+ "C26": ("error-propagation analysis over cmd/mltwist, elf, parser, deps, basicblock; exit-code/stderr rule in main; header-sized allocation rule; inter-procedural length-precondition rule (callee relies on len(p) >= k => every caller establishes it); bound rule for computed indices into fixed-size arrays (type range, mask/remainder/shift by a constant, range key, guarding comparison)",
+         "every error is returned or checked with a failing branch that cannot return nil; main prints to stderr and exits non-zero; 1 listed known finding (unbounded Memsz allocation); byte-slice lengths relied upon by the decoder are established by its callers and interface entry points rely on nothing unchecked; a fixed-size array is indexed below its length (no such access exists today: the rule is exercised by the stored change seeded/C26-5). Absence of panics in general is NOT decided",
          "trusts go/ssa", "§4 C26"),
  "C27": ("module-wide byte-slice ownership analysis; fresh-storage rule for newConst call sites; only-writers of Const.bs; encoding-loop pattern and accept/reject decision table of NewConstUint/NewConstInt by concrete CFG walk",
          "constants never share storage with caller-owned slices and nothing writes through constant storage; the integer constructors store byte(val>>8i) little-endian in a fresh w-byte slice and reject exactly the values whose shifted-out rest is not zero (unsigned) / not the sign extension of the top stored byte (signed). The reading accessors (ConstUint/ConstInt) are NOT decided",
